@@ -142,6 +142,13 @@ let run_prog (type x r) (rc : r rcodec) (mc : x mcodec) (is_fr : bool) (toks : s
           if is_fr then failwith "mul on Lc<Free>" else real (OMul (nat d, nat a, nat b)) rest
       | "lmul" :: d :: a :: b :: rest -> real (OLcMul (nat d, nat a, nat b)) rest
       | "pow" :: d :: a :: n :: rest -> real (OPow (nat d, nat a, nat n)) rest
+      (* Pow<i32/i64/isize>: a negative exponent goes through inv().unwrap(); None = panic = "P", register kept *)
+      | "powz" :: d :: a :: n :: rest ->
+          let u = (match rc.ru with Some u -> u | None -> failwith "no units") in
+          (match p_pow_z m o u (rd regs (nat a)) (z_of_string n) with
+           | Some v -> let regs' = wr regs (nat d) v in
+                       go regs' rest (observe rc mc is_fr (rd regs' (nat d)) :: acc)
+           | None -> go regs rest ("P" :: acc))
       | "mapg" :: d :: a :: k :: rest ->
           let (f, _) = zk () in let k = z_of_string k in
           real (OMapGens (nat d, nat a, f (fun x -> Z.div x k))) rest
